@@ -98,7 +98,7 @@ func RunProfile(profile, tier string, seed int64, out string, shards int, script
 		return st, err
 	case "quant", "floatfix", "fixfloat", "floatfloat", "depth", "freq":
 		return runNumProfile(profile, thorough, seed, out, shards)
-	case "poolseq", "poolforeign", "poolconc", "poolcycle":
+	case "poolseq", "poolforeign", "poolconc", "poolcycle", "poolzero":
 		return runPoolProfile(profile, thorough, seed, out)
 	case "hist":
 		s, err := newShards(out, profile, shards)
